@@ -369,8 +369,8 @@ func c09GenTmpl(t *rapid.T, o c09TmplOpt) c09Tmpl {
 
 type c09Shape struct {
 	Mixin, Collector, CollectorArr, Views, Dotted, HostileVal bool
-	MixinDisorder                                         []string // apps processed before a source that itself inherits
-	QuoteColonName                                        bool
+	MixinDisorder                                             []string // apps processed before a source that itself inherits
+	QuoteColonName                                            bool
 }
 
 func c09HostileString(s string) bool { return strings.ContainsAny(s, "\"\\\n") }
